@@ -235,7 +235,13 @@ def _try_dissolve(raw, adt, F, audited_fields):
                     raise _Bail('b6')
         parsed = []
         for val, pt in fst:
-            before = [(g, v) for g, v, p2 in gst if order_before(bd, p2, pt)]
+            # the value a G holds at the store to F: that of the closest preceding store to it
+            before = []
+            for g0 in set(g for g, v, p2 in gst):
+                cands = [(v, p2) for g, v, p2 in gst if g == g0 and order_before(bd, p2, pt)]
+                last = [c for c in cands if not any(c2 is not c and order_before(bd, c[1], c2[1]) for c2 in cands)]
+                if len(last) == 1:
+                    before.append((g0, last[0][0]))
             parsed.append((parse_value(an, bd, val, before), pt))
         fills.append((q, bd, an, gst, parsed))
         # constructors: aggregates of the struct
